@@ -13,7 +13,7 @@ fn nontrivial(t: &Trace) -> bool {
 }
 
 /// (bps, spc, total sectors, built by imggen?)
-const GEOMS: &[(u16, u8, u32, bool)] = &[
+pub const GEOMS: &[(u16, u8, u32, bool)] = &[
     (512, 64, u32::MAX, true),
     (512, 128, u32::MAX, true),
     (512, 8, 8_400_000, true),
@@ -46,14 +46,14 @@ pub fn large_vol(geom_idx: usize, l: LargeCfg) -> VolCfg {
     }
 }
 
-fn large_cfgs() -> Vec<LargeCfg> {
+pub fn large_cfgs() -> Vec<LargeCfg> {
     let mut v = Vec::new();
     for hint in [Some(0), Some(-1), Some(1), Some(-40), None] {
-        v.push(LargeCfg { hint_rel: hint, tail_window: 0, tail_free: vec![], head_used: 0 });
-        v.push(LargeCfg { hint_rel: hint, tail_window: 64, tail_free: vec![0], head_used: 9 });
-        v.push(LargeCfg { hint_rel: hint, tail_window: 64, tail_free: vec![], head_used: 9 });
-        v.push(LargeCfg { hint_rel: hint, tail_window: 3000, tail_free: vec![0, 1, 2, 50], head_used: 0 });
-        v.push(LargeCfg { hint_rel: hint, tail_window: 48, tail_free: vec![1, 3], head_used: 2 });
+        v.push(LargeCfg { hint_rel: hint, tail_window: 0, tail_free: vec![], head_used: 0, alias_bad: false });
+        v.push(LargeCfg { hint_rel: hint, tail_window: 64, tail_free: vec![0], head_used: 9, alias_bad: false });
+        v.push(LargeCfg { hint_rel: hint, tail_window: 64, tail_free: vec![], head_used: 9, alias_bad: false });
+        v.push(LargeCfg { hint_rel: hint, tail_window: 3000, tail_free: vec![0, 1, 2, 50], head_used: 0, alias_bad: false });
+        v.push(LargeCfg { hint_rel: hint, tail_window: 48, tail_free: vec![1, 3], head_used: 2, alias_bad: true });
     }
     v
 }
@@ -83,7 +83,7 @@ pub fn prop() -> HistProp {
     }
 }
 
-fn scripted_ops(cs: u32) -> Vec<Op> {
+pub fn scripted_ops(cs: u32) -> Vec<Op> {
     vec![
         Op::CreateFile { via: 0, path: "big file one.bin".into(), keep: 1 },
         Op::Write { h: 0, len: cs + 5, seed: 1 },
